@@ -2,7 +2,7 @@
 # tools/seedcheck.sh <Cxx> <A|B> [srcdir]   -- confirm a seeded change independently and file it under seeded/
 # (scratch worktree under /tmp, removed afterwards)
 set -u
-ID="$1"; L="$2"; SRC="${3:-/tmp/mut/$ID/out/$L}"
+ID="$1"; L="$2"; SRC="${3:-/tmp/mut/$ID/out/$L}"; DL="${4:-$L}"   # DL: label under which the change is filed (round 2: C, D)
 HERE="$(cd "$(dirname "$0")/.." && pwd)"
 WT="/tmp/seedchk/$ID$L"
 mkdir -p /tmp/seedchk
@@ -22,9 +22,9 @@ LOST=$(comm -23 "$BASE" "/tmp/seedchk/$ID$L.pass" | wc -l)
 NB=$(wc -l < "$BASE"); NM=$(wc -l < "/tmp/seedchk/$ID$L.pass")
 echo "$ID-$L: demo clean=$CLEAN mutant=$MUT; suite baseline=$NB mutant=$NM lost=$LOST"
 if [ "$CLEAN" = 0 ] && [ "$MUT" != 0 ] && [ "$LOST" = 0 ]; then
-  D="$HERE/seeded/$ID-$L"; mkdir -p "$D"
+  D="$HERE/seeded/$ID-$DL"; mkdir -p "$D"
   cp "$SRC/patch.diff" "$D/patch.diff"; cp "$SRC/$DEMO" "$D/$DEMO"; [ -f "$SRC/notes.md" ] && cp "$SRC/notes.md" "$D/notes.md"
-  python3 - "$D" "$ID" "$L" "$DEMO" "$NB" "$NM" "$CLEAN" "$MUT" <<'PY'
+  python3 - "$D" "$ID" "$DL" "$DEMO" "$NB" "$NM" "$CLEAN" "$MUT" <<'PY'
 import json,sys,subprocess
 d,pid,l,demo,nb,nm,clean,mut=sys.argv[1:]
 notes=open(d+"/notes.md").read() if __import__("os").path.exists(d+"/notes.md") else ""
